@@ -945,6 +945,7 @@ class Engine:
         """while/for with a loop specification: check invariant at entry, havoc, assume, run body once, check again."""
         fname = self.fnname
         entry = st.clone()
+        st.ghost['LE'] = entry          # the state at the entry of the (last) loop, for postconditions stated relative to it
         k0 = None
         nterm = None
         if it is not None:
@@ -957,6 +958,13 @@ class Engine:
         # 2. havoc
         head = st.clone()
         self.models.havoc_loop(self, n, head, spec)
+        # heap frame (C17): carried through every loop whose body may touch the heap (havoc BEFORE the invariant is assumed)
+        frame_on = False
+        if self.models.interface is not None and self.models.interface.loop_touches_heap(n):
+            self.models.interface.havoc_heap(self, head)
+            for label, cond in self.models.interface.loop_frame_clauses(self, head):
+                head.assume(cond)
+            frame_on = True
         kvar = None
         if it is not None:
             kvar = fresh('k', t.INT)
@@ -975,13 +983,6 @@ class Engine:
                     if entry.known(t.app(tester, t.BOOL, v0.t)) is True:
                         head.assume(t.app(tester, t.BOOL, v1.t))
                         stable.append((name, tester))
-        # heap frame (C17): carried through every loop whose body may touch the heap
-        frame_on = False
-        if self.models.interface is not None and self.models.interface.loop_touches_heap(n):
-            self.models.interface.havoc_heap(self, head)
-            for label, cond in self.models.interface.loop_frame_clauses(self, head):
-                head.assume(cond)
-            frame_on = True
         # ghost 'an ExplicitError was swallowed' is carried through every loop as well
         sw0 = entry.ghost.get('swallowed_explicit', t.FALSE)
         sw_on = any(isinstance(x, ast.Try) for x in ast.walk(n))
@@ -1015,6 +1016,7 @@ class Engine:
         for a, b in guard_results:
             if a is not None:
                 # body
+                a.ghost['loop_k'] = kvar if kvar is not None else t.ZERO
                 if it is not None:
                     item = it.item(self, a, kvar)
                     starts = self.assign(n.target, item, a)
@@ -1030,6 +1032,11 @@ class Engine:
                             k2 = t.add(kvar, t.ONE) if kvar is not None else None
                             v2 = LoopView(self, st2, entry, k2, nterm, self.loop_extra)
                             for label, cond, *rest in spec.inv(v2):
+                                if len(rest) >= 2 and rest[1]:
+                                    # hints: facts that follow from definitions (each is an obligation of its own), then assumed
+                                    for hi, h in enumerate(rest[1]):
+                                        self.emit(st2, '%s/loop[%s]/preserve/%s/hint%d' % (fname, text, label, hi), h, kind='hint', tags=spec.tags)
+                                        st2.assume(h)
                                 self.emit(st2, '%s/loop[%s]/preserve/%s' % (fname, text, label), cond, kind='loop-preserve', tags=spec.tags)
                             for name, tester in stable:
                                 vv = st2.env.get(name)
